@@ -8,9 +8,10 @@ WT=/tmp/seedrun_$ID
 cd /verif || exit 2
 git -C /repo worktree remove --force $WT >/dev/null 2>&1
 git -C /repo worktree add -q --detach $WT HEAD || exit 2
-echo "== demo on unchanged tree"; (cd $WT && PYTHONPATH=$WT /venv/bin/python -W ignore $DEMO >/dev/null 2>&1; echo "demo exit (clean) = $?")
+cp $DEMO $WT/_seed_demo.py   # the script's own directory comes first on sys.path: run it from inside the tree under test
+echo "== demo on unchanged tree"; (cd $WT && PYTHONPATH=$WT /venv/bin/python -W ignore _seed_demo.py >/dev/null 2>&1; echo "demo exit (clean) = $?")
 git -C $WT apply $PATCH || { echo "PATCH DOES NOT APPLY"; git -C /repo worktree remove --force $WT; exit 2; }
-echo "== demo on patched tree"; (cd $WT && PYTHONPATH=$WT /venv/bin/python -W ignore $DEMO >/dev/null 2>&1; echo "demo exit (patched) = $?")
+echo "== demo on patched tree"; (cd $WT && PYTHONPATH=$WT /venv/bin/python -W ignore _seed_demo.py >/dev/null 2>&1; echo "demo exit (patched) = $?")
 for C in $CHECKS; do
   echo "== check $C quick on patched tree"
   SKA_REPO=$WT ./check $C quick 2>&1 | grep -v "^KNOWN-FINDING" | cut -c1-400 | tail -6
